@@ -37,6 +37,35 @@ fn rule_status(ctx: &Ctx, out: &mut Vec<Violation>) {
     }
 }
 
+/// C10.conflict: a create / delete of a topic or subscription answered with a "the resource went
+/// away under me" status (FAILED_PRECONDITION / INTERNAL) although no other create or delete was
+/// in flight during the call (and none with an open-ended effect - abandoned, unanswered - before
+/// it): as a map operation it had to answer OK, ALREADY_EXISTS or NOT_FOUND.
+fn rule_unprovoked_conflict(ctx: &Ctx, out: &mut Vec<Violation>) {
+    let m = ctx.m;
+    let is_mutation = |r: &Req| matches!(r, Req::CreateSub { .. } | Req::DeleteSub { .. } | Req::CreateTopic { .. } | Req::DeleteTopic { .. });
+    let muts: Vec<&Call> = m.calls.values().filter(|c| is_mutation(&c.req)).collect();
+    for c in muts.iter() {
+        if !matches!(c.out, Some(Outcome::Err(FAILED_PRECONDITION, _)) | Some(Outcome::Err(INTERNAL, _))) {
+            continue;
+        }
+        let (inv, ret) = (c.inv_seq, c.ret_seq.unwrap_or(u64::MAX));
+        let provoked = muts.iter().any(|o| o.id != c.id && o.inv_seq < ret && o.effect_end_seq() > inv);
+        if provoked {
+            continue;
+        }
+        let what = match &c.req {
+            Req::CreateSub { sub, .. } => format!("CreateSubscription({sub})"),
+            Req::DeleteSub { sub } => format!("DeleteSubscription({sub})"),
+            Req::CreateTopic { topic } => format!("CreateTopic({topic})"),
+            Req::DeleteTopic { topic } => format!("DeleteTopic({topic})"),
+            _ => continue,
+        };
+        let kind = what.split('(').next().unwrap_or("").to_string();
+        out.push(v("C10.conflict", format!("unprovoked:{kind}"), format!("{} (call {}) was answered {:?} although no other create or delete overlapped it", what, c.id, c.out)));
+    }
+}
+
 /// C10.residue: a CreateSubscription that failed (whatever the status) leaves nothing behind. Judged
 /// at audits for names that no create ever created successfully and no create was abandoned on.
 /// C17.registry: the push registry only holds subscriptions that exist with a push endpoint.
@@ -69,6 +98,7 @@ fn rule_residue(ctx: &Ctx, out: &mut Vec<Violation>) {
 
 pub fn evaluate_more(ctx: &Ctx, out: &mut Vec<Violation>) {
     rule_status(ctx, out);
+    rule_unprovoked_conflict(ctx, out);
     rule_residue(ctx, out);
     rule_c14(ctx, out);
     rule_c13(ctx, out);
